@@ -111,9 +111,9 @@ def load(tag, data, d):
     if tag == 0:
         recs = qprops.mk_records(data)
         # the signature is Iterable[Record]: a list, or an iterable that can be walked only once
-        return Converter(recs if len(data) % 3 == 0 else qprops.one_shot(recs, len(data)), delimiter=d)
+        return Converter(recs if len(data) % 3 == 0 else qprops.one_shot(recs, len(data)), **qprops.flags(delimiter=d))
     if tag == 7:
-        return Converter(reused_records(data)[0], delimiter=d)
+        return Converter(reused_records(data)[0], **qprops.flags(delimiter=d))
     if tag == 1:
         # the documented inputs: an iterable of dictionaries or of Record objects -- a list, or a one-shot iterator / generator
         k = len(data) % 4
@@ -126,17 +126,17 @@ def load(tag, data, d):
             arg = (Record(**x) for x in dicts)
         else:
             arg = [Record(**x) for x in dicts]
-        return Converter.from_extended_prefix_map(arg, delimiter=d)
+        return Converter.from_extended_prefix_map(arg, **qprops.flags(delimiter=d))
     if tag == 2:
-        return Converter.from_prefix_map(dict(map(tuple, data)), delimiter=d)
+        return Converter.from_prefix_map(dict(map(tuple, data)), **qprops.flags(delimiter=d))
     if tag == 3:
-        return Converter.from_priority_prefix_map({k: list(v) for k, v in data}, delimiter=d)
+        return Converter.from_priority_prefix_map({k: list(v) for k, v in data}, **qprops.flags(delimiter=d))
     if tag == 4:
-        return Converter.from_reverse_prefix_map(dict(map(tuple, data)), delimiter=d)
+        return Converter.from_reverse_prefix_map(dict(map(tuple, data)), **qprops.flags(delimiter=d))
     if tag == 5:
-        return Converter.from_jsonld({"@context": jsonld_obj(data)}, delimiter=d)
+        return Converter.from_jsonld({"@context": jsonld_obj(data)}, **qprops.flags(delimiter=d))
     if tag == 6:
-        return Converter(curies.upgrade_prefix_map(dict(map(tuple, data))), delimiter=d)
+        return Converter(curies.upgrade_prefix_map(dict(map(tuple, data))), **qprops.flags(delimiter=d))
     raise ValueError(tag)
 
 
@@ -221,7 +221,7 @@ def observe_load(case, files=False):
                     json.dump(payload, f, ensure_ascii=(len(json.dumps(payload)) % 2 == 0))
                 want = [qprops.v_record(r) for r in c.records]
                 for arg in (path, Path(path)):
-                    c2 = fn(arg, delimiter=d)
+                    c2 = fn(arg, **qprops.flags(delimiter=d))
                     if [qprops.v_record(r) for r in c2.records] != want or c2.delimiter != c.delimiter:
                         return case, [9, [], []]  # file-vs-object mismatch (runtime-only clause of C13)
             finally:
